@@ -6,6 +6,7 @@ import (
 	"flag"
 	"fmt"
 	"os"
+	"os/exec"
 	"runtime/pprof"
 	"sort"
 	"strings"
@@ -78,8 +79,47 @@ func cmdSelfcheck() int {
 		fmt.Println("selfcheck: unexpected", r)
 		return 2
 	}
+	if !quotZeroLemmas() {
+		return 2
+	}
 	fmt.Println("selfcheck ok")
 	return 0
+}
+
+// quotZeroLemmas discharges, at full double width on all three solvers, the facts that make
+// smt.QuotZero sound: for each operator it recurses through, (1) replacing a -0 operand by
+// +0 changes the result at most in the sign of a zero (or both results are NaN), and (2) a
+// NaN operand gives a NaN result. a ≈ a' means a, a' are bit-equal, or both NaN, or both
+// zeros; so (1), (2) and transitivity of ≈ give congruence in each argument.
+func quotZeroLemmas() bool {
+	const S = "(_ FloatingPoint 11 53)"
+	const pz, nz = "(_ +zero 11 53)", "(_ -zero 11 53)"
+	pre := "(declare-const b " + S + ")(declare-const n " + S + ")\n(define-fun eqv ((x " + S + ")(y " + S + ")) Bool (or (and (fp.isNaN x)(fp.isNaN y)) (fp.eq x y)))\n(assert (fp.isNaN n))\n"
+	var goals []string
+	for _, op := range []string{"fp.add RNE", "fp.sub RNE", "fp.mul RNE"} {
+		goals = append(goals,
+			fmt.Sprintf("(eqv (%s %s b) (%s %s b))", op, pz, op, nz),
+			fmt.Sprintf("(eqv (%s b %s) (%s b %s))", op, pz, op, nz),
+			fmt.Sprintf("(fp.isNaN (%s n b))", op), fmt.Sprintf("(fp.isNaN (%s b n))", op))
+	}
+	goals = append(goals,
+		fmt.Sprintf("(eqv (fp.div RNE %s b) (fp.div RNE %s b))", pz, nz), "(fp.isNaN (fp.div RNE n b))",
+		fmt.Sprintf("(eqv (fp.sqrt RNE %s) (fp.sqrt RNE %s))", pz, nz), "(fp.isNaN (fp.sqrt RNE n))",
+		fmt.Sprintf("(eqv (fp.neg %s) (fp.neg %s))", pz, nz), "(fp.isNaN (fp.neg n))",
+		fmt.Sprintf("(eqv (fp.abs %s) (fp.abs %s))", pz, nz), "(fp.isNaN (fp.abs n))")
+	for _, sv := range [][]string{{"z3-new", "-in"}, {"z3", "-in"}, {"cvc5", "--lang=smt2"}} {
+		for _, g := range goals {
+			cmd := exec.Command(sv[0], sv[1:]...)
+			cmd.Stdin = strings.NewReader("(set-logic QF_FP)\n" + pre + "(assert (not " + g + "))\n(check-sat)\n")
+			out, _ := cmd.CombinedOutput()
+			if strings.TrimSpace(string(out)) != "unsat" {
+				fmt.Printf("selfcheck: QuotZero lemma %s not discharged by %s: %s\n", g, sv[0], strings.TrimSpace(string(out)))
+				return false
+			}
+		}
+	}
+	fmt.Printf("selfcheck: %d QuotZero congruence lemmas discharged by z3-new, z3, cvc5\n", len(goals))
+	return true
 }
 
 func cmdRun(args []string) int {
